@@ -878,6 +878,31 @@ Lemma dns_relays_refuted :
   exists d reply, d <> [] /\ w_backend (dns_model (server_wrap false KDummyUdp) d true (Some reply)) = [].
 Proof. exists [1; 2]%N, [3]%N. split; [discriminate|reflexivity]. Qed.
 
+(* early close: what arrives is always a prefix of what was sent, never anything else *)
+Lemma relay_until_close_prefix chunks : forall sched,
+  exists rest, concat chunks = relay_until_close chunks sched ++ rest.
+Proof.
+  induction chunks as [|c cs IH]; intros sched.
+  - destruct sched as [|[|] r]; exists []; reflexivity.
+  - destruct sched as [|[|] r]; cbn [relay_until_close].
+    + exists []. rewrite app_nil_r. reflexivity.
+    + destruct (IH r) as [rest Hr]. exists rest. cbn [concat]. rewrite Hr, app_assoc. reflexivity.
+    + exists (concat (c :: cs)). reflexivity.
+Qed.
+
+Lemma relay_until_close_complete chunks sched :
+  (length chunks <= length sched)%nat -> Forall (fun b => b = true) sched ->
+  relay_until_close chunks sched = concat chunks.
+Proof.
+  revert sched; induction chunks as [|c cs IH]; intros sched Hl Hall.
+  - destruct sched as [|b r]; [reflexivity|]. pose proof (Forall_inv Hall) as Hb. cbv beta in Hb. subst b. reflexivity.
+  - destruct sched as [|b r]; [reflexivity|]. pose proof (Forall_inv Hall) as Hb. cbv beta in Hb. subst b.
+    cbn [relay_until_close concat]. rewrite IH; [reflexivity|cbn [length] in Hl; lia|apply (Forall_inv_tail Hall)].
+Qed.
+
+Lemma early_close_refuted : exists chunks sched, relay_until_close chunks sched <> concat chunks.
+Proof. exists [[1]%N; [2]%N], [true; false]. vm_compute. discriminate. Qed.
+
 (* data written after a channel request can overtake it *)
 Lemma ssh_cross_order_refuted :
   exists msgs sched, ssh_relay msgs sched <> msgs.
